@@ -393,16 +393,16 @@ def headerLoop (o : Opts) (cont : Option Path) : Nat → PS → List (Option Str
     let (t, s) ← nextTok o s
     if t.ty = .name then do
       let name := cstr t.text
-      -- cif_container_get_item_loop, then find_header_name — both only when there is a container
-      let verdict : Option Code ← match cont with
-        | none => pure none
-        | some path => do
-          let e ← itemExists o path name
-          if e then pure (some CIF_DUP_ITEMNAME)
-          else match findHeaderName o slots name with
-            | some true => pure (some CIF_INVALID_ITEMNAME)
-            | some false => pure (some CIF_DUP_ITEMNAME)
-            | none => pure none
+      -- cif_container_get_item_loop (only with a container), then find_header_name (always, since 0e7a3a9)
+      let e ← match cont with
+        | none => pure false
+        | some path => itemExists o path name
+      let verdict : Option Code :=
+        if e then some CIF_DUP_ITEMNAME
+        else match findHeaderName o slots name with
+          | some true => some CIF_INVALID_ITEMNAME
+          | some false => some CIF_DUP_ITEMNAME
+          | none => none
       match verdict with
       | some code => do
         report code s.scan.line (s.scan.col - t.text.length)
